@@ -510,7 +510,7 @@ pub struct TextFamily {
 pub fn text_families(tier: Tier) -> Vec<TextFamily> {
     let mut fams = Vec::new();
     // (i) bounded-deviation files
-    let ctxs: Vec<(u8, i32)> = vec![(0, 14), (1, 14), (2, 14), (3, 14), (0, 7), (3, 7), (1, 7), (2, 7)];
+    let ctxs: Vec<(u8, i32)> = vec![(0, 14), (1, 14), (2, 14), (3, 14), (0, 7), (3, 7), (1, 7), (2, 7), (0, 4), (3, 3), (1, 5), (2, 128)];
     let devs = deviations(&baseline(0, 14));
     let nd = devs.len() as u64;
     let nc = ctxs.len() as u64;
@@ -531,7 +531,7 @@ pub fn text_families(tier: Tier) -> Vec<TextFamily> {
         });
     }
     if tier.thorough() {
-        let (devs2, ctxs2) = (devs.clone(), vec![(0u8, 14), (3u8, 14), (1u8, 7)]);
+        let (devs2, ctxs2) = (devs.clone(), vec![(0u8, 14), (3u8, 14), (1u8, 7), (0u8, 4)]);
         let nc2 = ctxs2.len() as u64;
         fams.push(TextFamily {
             name: "baseline file with two deviations (second applied after the first), x mode x version",
@@ -593,7 +593,7 @@ pub fn text_families(tier: Tier) -> Vec<TextFamily> {
     {
         let nt = TIMING_MENU.len() as u64;
         let no = OBJECT_MENU.len() as u64;
-        let ctx: Vec<(u8, i32)> = if tier.thorough() { vec![(0, 14), (1, 14), (2, 14), (3, 14), (0, 7), (3, 7)] } else { vec![(0, 14), (3, 14), (1, 7)] };
+        let ctx: Vec<(u8, i32)> = if tier.thorough() { vec![(0, 14), (1, 14), (2, 14), (3, 14), (0, 7), (3, 7), (0, 4), (2, 3)] } else { vec![(0, 14), (3, 14), (1, 7), (0, 4)] };
         let radices = vec![nt, nt, nt, no, no, ctx.len() as u64];
         fams.push(TextFamily {
             name: "chronological timing-line triples x object pairs x mode x version",
@@ -664,9 +664,66 @@ pub fn replay(case: &Value) -> Vec<Violation> {
     acc.viols.into_values().flatten().collect()
 }
 
+fn to_path_dir() -> std::path::PathBuf {
+    let dir = std::env::temp_dir().join(format!("rmc-c04-{}", std::process::id()));
+    let _ = std::fs::create_dir_all(&dir);
+    dir
+}
+
+/// encode_to_path over a path that already holds `prior` content: the file afterwards is exactly the encoding
+fn check_to_path(text: &str, prior: u64, idx: u64, dir: &std::path::Path, acc: &mut Acc) {
+    acc.evals += 1;
+    acc.states += 1;
+    let Ok(mut m) = rosu_map::from_str::<Beatmap>(text) else { return };
+    let Ok(want) = m.encode_to_string() else { return };
+    let path = dir.join(format!("f{idx}.osu"));
+    let old: Option<Vec<u8>> = match prior {
+        0 => None,
+        1 => Some(Vec::new()),
+        2 => Some(b"osu file format v14\n\n[HitObjects]\n1,2,3,1,0\n".to_vec()),
+        3 => Some(std::iter::repeat(&b"256,192,99999,1,0,0:0:0:0:\n"[..]).take(want.len() / 27 + 40).flatten().copied().collect()),
+        _ => Some(format!("{want}[HitObjects]\n9,9,999999,1,0\n").into_bytes()),
+    };
+    match &old {
+        None => {
+            let _ = std::fs::remove_file(&path);
+        }
+        Some(b) => {
+            let _ = std::fs::write(&path, b);
+        }
+    }
+    let r = guarded(|| m.encode_to_path(&path));
+    let got = std::fs::read(&path).unwrap_or_default();
+    let _ = std::fs::remove_file(&path);
+    acc.transitions += 1;
+    let case = json!({"kind": "encode_to_path", "hex": hex(text.as_bytes()), "prior": prior});
+    match r {
+        Ok(Ok(())) => {
+            if got != want.as_bytes() {
+                let common = got.iter().zip(want.as_bytes()).take_while(|(a, b)| a == b).count();
+                acc.violation(Violation::new(
+                    "file-at-path-differs-from-encoding",
+                    format!("encode_to_path over prior content class {prior}: file has {} bytes, encoding {} bytes, first difference at {common}", got.len(), want.len()),
+                    case,
+                ));
+            } else {
+                acc.nontrivial(&(idx, crate::engine::hash64(&want)));
+            }
+        }
+        Ok(Err(e)) => acc.violation(Violation::new("encode-to-path-failed", format!("{e}"), case)),
+        Err(p) => acc.violation(Violation::new("panic", p, case)),
+    }
+}
+
 pub fn replay_c04(case: &Value) -> Vec<Violation> {
     let bytes = unhex(case["hex"].as_str().unwrap_or(""));
     let mut acc = Acc::new();
+    if case["kind"] == "encode_to_path" {
+        let dir = to_path_dir();
+        check_to_path(&String::from_utf8_lossy(&bytes), case["prior"].as_u64().unwrap_or(3), 0, &dir, &mut acc);
+        let _ = std::fs::remove_dir_all(&dir);
+        return acc.viols.into_values().flatten().collect();
+    }
     check_c04(&bytes, &mut acc);
     acc.viols.into_values().flatten().collect()
 }
@@ -734,12 +791,27 @@ pub fn run_c04(tier: Tier) -> i32 {
         bounds.push(json!({"family": fam.name, "inputs": fam.total}));
         acc = acc.merge(a);
     }
+    // encode_to_path: the file that ends up at the path is exactly the encoding, whatever the path held before
+    {
+        let mut texts: Vec<String> = crate::env::bundled_files().into_iter().map(|(_, b)| crate::env::text_of(&b)).collect();
+        texts.push(baseline(0, 14).text());
+        texts.push(baseline(3, 7).text());
+        let dir = to_path_dir();
+        let n_prior = 5u64;
+        let a = par_range(texts.len() as u64 * n_prior, |idx, acc| {
+            check_to_path(&texts[(idx / n_prior) as usize], idx % n_prior, idx, &dir, acc);
+        });
+        let _ = std::fs::remove_dir_all(&dir);
+        bounds.push(json!({"family": "encode_to_path over {no file, empty, shorter, longer junk, own encoding + extra lines} x {bundled files, two baselines}", "inputs": texts.len() as u64 * n_prior}));
+        acc = acc.merge(a);
+    }
     let summary = Summary {
         rule: "for every map decoded from the C02 families and from the C01 families (hostile, non-chronological, truncated, spliced \
                inputs) the encoded text is walked line by line: version line first; the eight headers exactly once in canonical order; \
                every non-blank line inside a section is fed to that section's public parser on one running state and must be accepted; no \
                emitted record is blank, a comment or whitespace-padded; the walked state equals the decoded text; as many objects, \
-               breaks and colours are read back as were emitted, each hit-object line describing the object of the same kind and time. \
+               breaks and colours are read back as were emitted, each hit-object line describing the object of the same kind and time; \
+               encode_to_path leaves exactly the encoding at the path whatever the path held before. \
                distinct_nontrivial = distinct encodings of maps with objects or timing points"
             .into(),
         bounds: json!({"families": bounds}),
